@@ -4,7 +4,9 @@ Extracted: POTENTIAL_PARENTS_CACHE_SIZE, DEFAULT_PARENT_MIN_SPEED, DEFAULT_PAREN
 the initial `_max_children` / `_accept_children` of `DistributedNetwork.__init__`; the literals of
 `_calculate_max_children` (`divider = (ratio / <ratioDiv>) * <speedUnit>; return int(speed / divider)`) and of the
 admission threshold `speed < parent_min_speed * <minSpeedUnit>` in `_on_get_user_stats`.
-A shape the translator does not recognise raises (never skipped).
+A shape of `_calculate_max_children` the translator does not recognise is probed behaviourally (`_probe_max_children`:
+accepted iff it computes `speed * A // (ratio * B)` on a grid over the whole uint32 domain); any other unrecognised
+shape raises (never skipped).
 """
 import ast
 from pathlib import Path
@@ -31,6 +33,68 @@ def _self_attr_assign(fn: ast.FunctionDef, attr: str):
                 and tgt.attr == attr:
             return ast.literal_eval(val)
     raise TranslateError(f'distributed.py: __init__ does not assign self.{attr} a literal')
+
+
+def _probe_max_children(repo: Path):
+    """`_calculate_max_children` has another shape than `divider = (ratio / A) * B; return int(speed / divider)`:
+    call the function of the tree under test (it does not use `self`) and accept it iff it computes
+    `speed * A // (ratio * B)` on a grid of (speed, ratio) pairs over the whole uint32 domain — boundaries of every
+    small maximum for ratios of all sizes included — for the (A, B) its answers determine. Pairs on which the floor of
+    the quotient is a whole number may come out one lower in binary floating point; they are not part of the grid
+    (the harness keeps them out of the comparison with the model as well). Anything else raises."""
+    import importlib
+    import math
+    import random
+    import sys
+    src = str(repo / 'src')
+    if src not in sys.path:
+        sys.path.insert(0, src)
+    mod = importlib.import_module('aioslsk.distributed')
+    if Path(mod.__file__).resolve() != (repo / 'src/aioslsk/distributed.py').resolve():
+        raise TranslateError(f'aioslsk.distributed was imported from {mod.__file__}, not from the tree under test')
+    fn = mod.DistributedNetwork._calculate_max_children
+
+    def f(speed, ratio):
+        try:
+            v = fn(None, speed, ratio)
+        except Exception as e:
+            raise TranslateError(f'_calculate_max_children({speed}, {ratio}) raised {e!r}')
+        if isinstance(v, bool) or not isinstance(v, int) or v < 0:
+            raise TranslateError(f'_calculate_max_children({speed}, {ratio}) = {v!r} is not a natural number')
+        return v
+    # f(s, 1) = floor(s * A / B): the ratio A / B from a large multiple, then the smallest pair that fits
+    big = 2 ** 20 * 3 ** 5 * 5 ** 5 * 7
+    q = f(big, 1)
+    if q == 0:
+        raise TranslateError('_calculate_max_children: cannot determine the literals (f(big, 1) = 0)')
+    g = math.gcd(q, big)
+    a, b = q // g, big // g
+    if a > 10 ** 6 or b > 10 ** 6:
+        raise TranslateError(f'_calculate_max_children: not of the form speed * A // (ratio * B) (A/B = {a}/{b})')
+    rng = random.Random(13)
+    u32 = 2 ** 32 - 1
+    ratios = list(range(1, 130)) + [150, 250, 500, 999, 1000, 1001, 65535, 65536, 2 ** 24 + 1, 2 ** 31, u32 - 1, u32]
+    ratios += [rng.randint(1, u32) for _ in range(40)] + [rng.randint(100, 100000) for _ in range(40)]
+    checked = 0
+    for r in ratios:
+        speeds = {0, 1, 1023, 1024, 1025, u32, u32 - 1, rng.randint(0, u32), rng.randint(0, 2 ** 20)}
+        for k in list(range(0, 12)) + [rng.randint(12, 5000)]:
+            lo = -(-k * r * b // a)
+            speeds |= {lo - 1, lo, lo + 1}
+        for sp in speeds:
+            if not 0 <= sp <= u32:
+                continue
+            want = sp * a // (r * b)
+            if (sp * a) % (r * b) == 0 and int(sp / ((r / a) * b)) != want:
+                continue                                     # a whole quotient that floating point misses
+            got = f(sp, r)
+            checked += 1
+            if got != want:
+                raise TranslateError(f'_calculate_max_children({sp}, {r}) = {got}, floor(speed * {a} / (ratio * {b})) '
+                                     f'= {want}: not the shape the model has')
+    if checked < 1000:
+        raise TranslateError('_calculate_max_children: probe grid too small')
+    return a, b
 
 
 def extract(repo: Path) -> dict:
@@ -83,11 +147,13 @@ def extract(repo: Path) -> dict:
               and len(r.args) == 1 and isinstance(r.args[0], ast.BinOp) and isinstance(r.args[0].op, ast.Div)
               and isinstance(r.args[0].left, ast.Name) and r.args[0].left.id == speed_arg
               and isinstance(r.args[0].right, ast.Name) and r.args[0].right.id == body[0].targets[0].id)
-    if not ok:
-        raise TranslateError('distributed.py: _calculate_max_children is not '
-                             '`divider = (ratio / A) * B; return int(speed / divider)`')
-    out['RATIO_DIV'] = _nat('ratio divisor', d.left.right.value)
-    out['SPEED_UNIT'] = _nat('speed unit', d.right.value)
+    if ok:
+        out['RATIO_DIV'] = _nat('ratio divisor', d.left.right.value)
+        out['SPEED_UNIT'] = _nat('speed unit', d.right.value)
+    else:
+        # behavioural fallback: the function was rewritten. It is accepted iff, called on a grid over the whole wire
+        # domain, it returns floor(speed * A / (ratio * B)) for one pair of literals (A, B) read off its own answers
+        out['RATIO_DIV'], out['SPEED_UNIT'] = _probe_max_children(repo)
     if out['RATIO_DIV'] == 0 or out['SPEED_UNIT'] == 0:
         raise TranslateError('zero literal in _calculate_max_children')
 
